@@ -1,0 +1,76 @@
+//go:build verif
+
+package blobstore
+
+import (
+	"sort"
+
+	"google.golang.org/protobuf/proto"
+)
+
+// VerifSizeclassHandleInfo is a read-only snapshot of the bookkeeping of
+// one blobAccessMutableProtoHandle. It only exists in builds with the
+// "verif" tag and is used by the model checking harness in
+// /verif/harness/sizeclass (property C07, persistence of statistics).
+type VerifSizeclassHandleInfo struct {
+	// Digest of the message, rendered with digest.Digest.String().
+	Digest string
+	// Registered is true if the handle is the one stored in the
+	// store's handles map under its digest.
+	Registered bool
+	// QueueIndex is the position of the handle in handlesToWrite, or
+	// -1 if the handle is not queued for writing.
+	QueueIndex int
+	// IndexField is the handle's own handlesToWriteIndex field.
+	IndexField     int
+	UseCount       int
+	WrittenVersion int
+	CurrentVersion int
+	// Message is the live message of the handle. It must only be read.
+	Message proto.Message
+}
+
+// VerifSizeclassDump returns a canonical snapshot of all handles that
+// are reachable from the store: first the handles that are queued for
+// writing, in queue order, followed by the remaining registered handles
+// ordered by digest. A handle that is both registered and queued is
+// reported once.
+//
+// This method does not acquire ss.lock: it may only be called while no
+// goroutine is inside a critical section of that lock (i.e., at the
+// quiescent points of the controlled scheduler, where every goroutine
+// is parked in front of a lock operation or inside a fake).
+func (ss *blobAccessMutableProtoStore[T, TProto]) VerifSizeclassDump() []VerifSizeclassHandleInfo {
+	info := func(h *blobAccessMutableProtoHandle[T, TProto], queueIndex int) VerifSizeclassHandleInfo {
+		registered, ok := ss.handles[h.digest]
+		return VerifSizeclassHandleInfo{
+			Digest:         h.digest.String(),
+			Registered:     ok && registered == h,
+			QueueIndex:     queueIndex,
+			IndexField:     h.handlesToWriteIndex,
+			UseCount:       h.useCount,
+			WrittenVersion: h.writtenVersion,
+			CurrentVersion: h.currentVersion,
+			Message:        TProto(&h.message),
+		}
+	}
+
+	result := make([]VerifSizeclassHandleInfo, 0, len(ss.handles)+len(ss.handlesToWrite))
+	queued := make(map[*blobAccessMutableProtoHandle[T, TProto]]struct{}, len(ss.handlesToWrite))
+	for i, h := range ss.handlesToWrite {
+		if h == nil {
+			continue
+		}
+		queued[h] = struct{}{}
+		result = append(result, info(h, i))
+	}
+	firstRegistered := len(result)
+	for _, h := range ss.handles {
+		if _, ok := queued[h]; !ok {
+			result = append(result, info(h, -1))
+		}
+	}
+	rest := result[firstRegistered:]
+	sort.Slice(rest, func(i, j int) bool { return rest[i].Digest < rest[j].Digest })
+	return result
+}
